@@ -145,7 +145,7 @@ M("tp21_eomack_packets_wrong", ["C03"], "EndOfMsgACK reports packets-1",
    "self.__send_tp_eom_ack(dest_address, src_address, self._rcv_buffer[buffer_hash]['message_size'], self._rcv_buffer[buffer_hash]['num_packages'], self._rcv_buffer[buffer_hash]['pgn'])",
    "self.__send_tp_eom_ack(dest_address, src_address, self._rcv_buffer[buffer_hash]['message_size'], self._rcv_buffer[buffer_hash]['num_packages'] - 1, self._rcv_buffer[buffer_hash]['pgn'])"))
 M("tp22_dt_segment_zero_based_symmetric", ["C03"], "FD segment numbers 0-based in sender and receiver",
-  ("j1939/j1939_22.py", "        data.insert(1,  segment_num & 0xFF)\n", "        segment_num -= 1\n        data.insert(1,  segment_num & 0xFF)\n"),
+  ("j1939/j1939_22.py", "        # build the frame from a copy: the segment stays in the send buffer and may be requested again\n", "        segment_num -= 1\n"),
   ("j1939/j1939_22.py", "        segment_num = (data[1] & 0xFF) | ((data[2]  & 0xFF) << 8) | ((data[3] & 0xFF)  << 16)\n\n        if segment_num == 0:",
    "        segment_num = ((data[1] & 0xFF) | ((data[2]  & 0xFF) << 8) | ((data[3] & 0xFF)  << 16)) + 1\n\n        if segment_num == 0:"))
 M("id_priority_shift", ["C03", "C15"], "priority at bit 25",
@@ -160,8 +160,9 @@ M("tp21_bam_deadline_from_pass_start", ["C09"], "J1939-21 BAM spacing measured f
 M("tp22_cts_from_global_hijacks_bam", ["C07"], "D26 reverted: flow control frames from SA 255 match a broadcast session",
   ("j1939/j1939_22.py", "            if self._snd_buffer[buffer_hash]['dest_address'] == ParameterGroupNumber.Address.GLOBAL:\n                # a broadcast session has no flow control (only a frame \"from\" the global address matches it)\n                return\n", ""))
 M("mpg_buffer_deleted_after_send", ["C11"], "D27 reverted: the multi-PG buffer is deleted after the frame was written",
-  ("j1939/j1939_22.py", "                del self._multi_pg_snd_buffer[bufid]\n\n                self.__send_multi_pg(frame_format, buf['cpg'], src_address, dst_address)",
-   "                self.__send_multi_pg(frame_format, buf['cpg'], src_address, dst_address)\n                del self._multi_pg_snd_buffer[bufid]"))
+  ("j1939/j1939_22.py", "                    del self._multi_pg_snd_buffer[bufid]\n                    due.append((bufid, buf))", "                    due.append((bufid, buf))"),
+  ("j1939/j1939_22.py", "            self.__send_multi_pg(frame_format, buf['cpg'], src_address, dst_address)\n\n\n        # check send buffers",
+   "            self.__send_multi_pg(frame_format, buf['cpg'], src_address, dst_address)\n            with self._multi_pg_lock:\n                self._multi_pg_snd_buffer.pop(bufid, None)\n\n\n        # check send buffers"))
 M("dm1_receive_writes_into_send_dict", ["C16"], "D28 reverted: a received DM1 is parsed into the dict the send callback handed out",
   ("j1939/diagnostic_messages.py", "        self._lamp_status = {}\n        self._lamp_status['pl']", "        self._lamp_status['pl']"))
 M("name_setter_keeps_reserved_bit", ["C15"], "D29 reverted: the value setter stores the reserved bit",
@@ -208,8 +209,8 @@ M("tp21_grant_ignores_rts_limit", ["C09", "C03"], "responder grant ignores the R
   ("j1939/j1939_21.py", "            max_num_packages = min(max_num_packages, num_packages)\n", "            max_num_packages = num_packages\n"))
 M("tp21_hold_ignored", ["C09"], "zero-packet CTS treated as 'continue'",
   ("j1939/j1939_21.py",
-   "                self._snd_buffer[buffer_hash]['deadline'] = time.time() + self.Timeout.Th\n                self.__job_thread_wakeup()\n                return\n",
-   "                self._snd_buffer[buffer_hash]['deadline'] = time.time() + self.Timeout.Th\n                self.__job_thread_wakeup()\n                num_packages = 1\n"))
+   "                self._snd_buffer[buffer_hash]['deadline'] = time.time() + self.Timeout.T4\n                self.__job_thread_wakeup()\n                return\n",
+   "                self._snd_buffer[buffer_hash]['deadline'] = time.time() + self.Timeout.T4\n                self.__job_thread_wakeup()\n                num_packages = 1\n"))
 M("tp22_burst_ignores_window", ["C09"], "FD burst loop does not stop at the window end",
   ("j1939/j1939_22.py", "                            elif package == buf['next_wait_on_cts']:\n                                # wait on next cts\n                                buf['state'] = self.SendBufferState.WAITING_CTS\n                                buf['deadline'] = time.time() + self.Timeout.T3\n                                should_break = True",
    "                            elif package == buf['next_wait_on_cts'] + 1:\n                                # wait on next cts\n                                buf['state'] = self.SendBufferState.WAITING_CTS\n                                buf['deadline'] = time.time() + self.Timeout.T3\n                                should_break = True"))
@@ -255,7 +256,7 @@ M("listener_no_containment", ["C07"], "bus listener lets exceptions from frame h
   ("j1939/electronic_control_unit.py", "        except Exception as e:\n            # Exceptions in any callbaks should not affect CAN processing\n            logger.error(str(e))",
    "        except ZeroDivisionError as e:\n            # Exceptions in any callbaks should not affect CAN processing\n            logger.error(str(e))"))
 M("tp21_hold_rearms_forever", ["C07"], "hold CTS disables the send deadline",
-  ("j1939/j1939_21.py", "                self._snd_buffer[buffer_hash]['deadline'] = time.time() + self.Timeout.Th\n", "                self._snd_buffer[buffer_hash]['deadline'] = 0\n"))
+  ("j1939/j1939_21.py", "                self._snd_buffer[buffer_hash]['deadline'] = time.time() + self.Timeout.T4\n", "                self._snd_buffer[buffer_hash]['deadline'] = 0\n"))
 
 M("tp22_segments_off_by_one_mod60", ["C02", "C03"], "FD segment count one too many when len % 60 == 0",
   ("j1939/j1939_22.py", "num_segments = int(message_size / self.DataLength.TP ) + ((message_size % self.DataLength.TP ) != 0)", "num_segments = int(message_size / self.DataLength.TP ) + 1"))
@@ -406,7 +407,7 @@ M("dm14_requester_check_dropped", ["C19"], "server does not compare the requeste
 M("dm14_pointer_check_dropped", ["C19"], "server does not compare the pointer of a running transaction",
   ("j1939/Dm14Server.py", "                self.address is not None and self.address != data[2 : (self.length - 2)]", "                False"))
 M("dm14_busy_answer_to_running_client", ["C19"], "busy DM15 addressed to the running requester instead of the sender",
-  ("j1939/Dm14Server.py", "                data[0],\n                sa,\n                j1939.ParameterGroupNumber.PGN.DM15,\n                self.error if self.error != 0x00 else 0x2,", "                data[0],\n                self.sa if self.sa is not None else sa,\n                j1939.ParameterGroupNumber.PGN.DM15,\n                self.error if self.error != 0x00 else 0x2,"))
+  ("j1939/Dm14Server.py", "                data[0],\n                sa,\n                j1939.ParameterGroupNumber.PGN.DM15,\n                # a refusal set up", "                data[0],\n                self.sa if self.sa is not None else sa,\n                j1939.ParameterGroupNumber.PGN.DM15,\n                # a refusal set up"))
 M("dm14_busy_answer_proceed_status", ["C19"], "busy answer carries status 'proceed'",
   ("j1939/Dm14Server.py", "                data[1] >> 4,\n                j1939.Dm15Status.OPERATION_FAILED.value,\n                j1939.ResponseState.SEND_ERROR,", "                data[1] >> 4,\n                j1939.Dm15Status.PROCEED.value,\n                j1939.ResponseState.SEND_PROCEED,"))
 M("dm14_intruder_resets_server", ["C19"], "a busy answer resets the running transaction's requester",
